@@ -1,0 +1,77 @@
+// Copyright 2024, Chef.  All rights reserved.
+// https://github.com/q191201771/lal
+//
+// Use of this source code is governed by a MIT-style license
+// that can be found in the License file.
+//
+// Author: Chef (191201771@qq.com)
+
+package rtsp
+
+import (
+	"io"
+	"strconv"
+
+	"github.com/q191201771/lal/pkg/base"
+	"github.com/q191201771/naza/pkg/nazaerrors"
+	"github.com/q191201771/naza/pkg/nazahttp"
+)
+
+// maxContentLength is the largest RTSP message body (an SDP, a parameter list) this package reads.
+const maxContentLength = 1 << 20
+
+// readHttpMessage reads one RTSP message like nazahttp.ReadHttpMessage does, but refuses a Content-Length
+// that is negative or unreasonably large instead of handing it to make(): both are chosen by the peer and
+// the former panics.
+func readHttpMessage(r nazahttp.HttpReader) (ctx nazahttp.HttpMsgCtx, err error) {
+	var firstLine string
+	firstLine, ctx.Headers, err = nazahttp.ReadHttpHeader(r)
+	if err != nil {
+		return ctx, err
+	}
+	ctx.ReqMethodOrRespVersion, ctx.ReqUriOrRespStatusCode, ctx.ReqVersionOrRespReason, err = nazahttp.ParseHttpRequestLine(firstLine)
+	if err != nil {
+		return ctx, err
+	}
+
+	contentLength := ctx.Headers.Get(nazahttp.HeaderFieldContentLength)
+	if len(contentLength) == 0 {
+		return ctx, nil
+	}
+	cl, err := strconv.Atoi(contentLength)
+	if err != nil {
+		return ctx, err
+	}
+	if cl < 0 || cl > maxContentLength {
+		return ctx, nazaerrors.Wrap(base.ErrRtsp, "invalid content-length: "+contentLength)
+	}
+	ctx.Body = make([]byte, cl)
+	_, err = io.ReadFull(r, ctx.Body)
+	return ctx, err
+}
+
+func readHttpRequestMessage(r nazahttp.HttpReader) (ctx nazahttp.HttpReqMsgCtx, err error) {
+	msgCtx, err := readHttpMessage(r)
+	if err != nil {
+		return
+	}
+	ctx.Method = msgCtx.ReqMethodOrRespVersion
+	ctx.Uri = msgCtx.ReqUriOrRespStatusCode
+	ctx.Version = msgCtx.ReqVersionOrRespReason
+	ctx.Headers = msgCtx.Headers
+	ctx.Body = msgCtx.Body
+	return
+}
+
+func readHttpResponseMessage(r nazahttp.HttpReader) (ctx nazahttp.HttpRespMsgCtx, err error) {
+	msgCtx, err := readHttpMessage(r)
+	if err != nil {
+		return
+	}
+	ctx.Version = msgCtx.ReqMethodOrRespVersion
+	ctx.StatusCode = msgCtx.ReqUriOrRespStatusCode
+	ctx.Reason = msgCtx.ReqVersionOrRespReason
+	ctx.Headers = msgCtx.Headers
+	ctx.Body = msgCtx.Body
+	return
+}
